@@ -1,6 +1,7 @@
 """Discharge of obligations: one SMT query per obligation, in a process pool."""
 import multiprocessing as mp
 import os
+import sys
 import subprocess
 import tempfile
 import time
@@ -89,6 +90,131 @@ def relevant_hyps(ob, mode):
     return [hyps[i] for i in sorted(keep)]
 
 
+def _ground_selects(fs):
+    """(array constant name, index term) of every array read over a ground index in the given formulas"""
+    out = {}
+    seen, stack = set(), list(fs)
+    while stack:
+        x = stack.pop()
+        if x.get_id() in seen:
+            continue
+        seen.add(x.get_id())
+        if z3.is_quantifier(x):
+            continue
+        if z3.is_app(x):
+            if x.decl().kind() == z3.Z3_OP_SELECT and z3.is_const(x.arg(0)) and x.arg(0).decl().kind() == z3.Z3_OP_UNINTERPRETED:
+                out.setdefault(x.arg(0).decl().name(), {})[x.arg(1).get_id()] = x.arg(1)
+            stack.extend(x.children())
+    return out
+
+
+def _split_affine(t):
+    """t = a*c + b (syntactically, after simplification) -> list of (a, c, b) candidates"""
+    t = z3.simplify(t)
+    cands = []
+    terms = list(t.children()) if z3.is_app(t) and t.decl().kind() == z3.Z3_OP_ADD else [t]
+    for i, m in enumerate(terms):
+        if z3.is_app(m) and m.decl().kind() == z3.Z3_OP_MUL and m.num_args() == 2:
+            rest = terms[:i] + terms[i + 1:]
+            b = z3.IntVal(0) if not rest else (rest[0] if len(rest) == 1 else z3.Sum(rest))
+            a, c = m.arg(0), m.arg(1)
+            cands.append((a, c, b))
+            cands.append((c, a, b))
+    return cands
+
+
+def skolemize(goal):
+    """forall-prefix of the goal replaced by fresh constants: (ground-ish goal, constants)"""
+    consts = []
+    g = goal
+    while z3.is_quantifier(g) and g.is_forall():
+        vs = [z3.Const(f"sk!{g.var_name(i)}!{len(consts) + i}", g.var_sort(i)) for i in range(g.num_vars())]
+        consts.extend(vs)
+        g = z3.substitute_vars(g.body(), *reversed(vs))
+    return g, consts
+
+
+def pre_instantiate(hyps, goal, rounds=2, cap=160):
+    """instances of the quantified hypotheses at the array indices that actually occur (a small, explicit E-matching round):
+    a hypothesis  forall v. ... A[v] ...  is instantiated at every ground index of A; one of the form
+    forall k, j. ... A[k*c + j] ...  at every ground index of A that has the shape a*c + b.  Instances of hypotheses are
+    consequences of them, so adding them is sound; it makes the proof independent of the solver's instantiation order."""
+    g0 = goal
+    flat = []
+    for h in hyps:
+        flat.extend(h.children() if z3.is_and(h) else [h])
+    hyps = flat
+    ground = [h for h in hyps if not z3.is_quantifier(h)] + [g0]
+    inst, seen_inst = [], set()
+    quants = [h for h in hyps if z3.is_quantifier(h) and h.is_forall() and h.num_vars() <= 2]
+    for _ in range(rounds):
+        sel = _ground_selects(ground + inst)
+        new = []
+        for q in quants:
+            nv = q.num_vars()
+            body = q.body()
+            # array reads in the body whose index mentions bound variables
+            reads = []
+            st_, seen = [body], set()
+            while st_:
+                x = st_.pop()
+                if x.get_id() in seen or z3.is_quantifier(x):
+                    continue
+                seen.add(x.get_id())
+                if z3.is_app(x):
+                    if x.decl().kind() == z3.Z3_OP_SELECT and z3.is_const(x.arg(0)) and x.arg(0).decl().kind() == z3.Z3_OP_UNINTERPRETED:
+                        reads.append((x.arg(0).decl().name(), x.arg(1)))
+                    st_.extend(x.children())
+            # pairwise facts  forall i, j. ... A[i] ... A[j] ...  (monotonicity): all pairs of the ground indices of A (few)
+            if nv == 2:
+                single = [(arr, idx) for arr, idx in reads if z3.is_var(idx)]
+                arrs = {a for a, _ in single}
+                if len(single) >= 2 and len(arrs) == 1 and {z3.get_var_index(i) for _, i in single} == {0, 1}:
+                    gis = list(sel.get(next(iter(arrs)), {}).values())[:7]
+                    for g1 in gis:
+                        for g2 in gis:
+                            if g1.eq(g2):
+                                continue
+                            f = z3.substitute_vars(body, g1, g2)
+                            if f.get_id() not in seen_inst:
+                                seen_inst.add(f.get_id())
+                                new.append(f)
+            for arr, idx in reads:
+                for gi in list(sel.get(arr, {}).values()):
+                    subs = []
+                    if nv == 1 and z3.is_var(idx):
+                        subs.append([gi])
+                    elif nv == 2 and z3.is_app(idx) and idx.decl().kind() == z3.Z3_OP_ADD and idx.num_args() == 2:
+                        # idx = v_hi * c + v_lo   (de Bruijn: var 1 is the first bound variable)
+                        m, lo = idx.arg(0), idx.arg(1)
+                        if z3.is_var(m):
+                            m, lo = lo, m
+                        if z3.is_app(m) and m.decl().kind() == z3.Z3_OP_MUL and m.num_args() == 2 and z3.is_var(lo):
+                            vk, c = (m.arg(0), m.arg(1)) if z3.is_var(m.arg(0)) else (m.arg(1), m.arg(0))
+                            if z3.is_var(vk) and not z3.is_var(c):
+                                for a_, c_, b_ in _split_affine(gi):
+                                    if c_.eq(z3.simplify(c)) or c_.eq(c):
+                                        vals = [None, None]
+                                        vals[z3.get_var_index(vk)] = a_
+                                        vals[z3.get_var_index(lo)] = b_
+                                        if None not in vals:
+                                            subs.append(list(reversed(vals)))
+                    for sub in subs:
+                        try:
+                            f = z3.substitute_vars(body, *reversed(sub)) if nv > 1 else z3.substitute_vars(body, sub[0])
+                        except z3.Z3Exception:
+                            continue
+                        if f.get_id() not in seen_inst:
+                            seen_inst.add(f.get_id())
+                            new.append(f)
+                if len(inst) + len(new) > cap:
+                    break
+        if not new:
+            break
+        inst.extend(new[: cap - len(inst)])
+    return inst
+
+
 def definition_hyps(ob):
     """only the definitional axioms reachable from the goal's symbols (transitively) + small quantifier-free facts"""
     hyps = list(ob.hyps)
@@ -118,13 +244,15 @@ def definition_hyps(ob):
     return [hyps[i] for i in sorted(keep)]
 
 
-def to_smt2(ob, extra_axioms=(), hyps=None):
+def to_smt2(ob, extra_axioms=(), hyps=None, plain=False):
     s = z3.Solver()
     for h in (ob.hyps if hyps is None else hyps):
         s.add(h)
     for a in extra_axioms:
         s.add(a)
-    s.add(z3.Not(ob.goal))
+    # universally quantified goals are proved for fresh constants (forall-introduction); the explicit instances added by
+    # pre_instantiate talk about exactly these constants
+    s.add(z3.Not(getattr(ob, "goal_sk", None) if getattr(ob, "goal_sk", None) is not None and not plain else ob.goal))
     return s.to_smt2()
 
 
@@ -134,12 +262,15 @@ def _uses(ob, name):
 
 
 Z3_CLI = os.environ.get("PYVC_Z3", "z3-new")
-SCHEDULE = (("defs", 0, 3), ("rel2", 0, 4), ("all", 0, 6), ("rel1", 7, 5))       # first pass: everything in parallel, short budgets
-# (hypothesis selection, random seed, hard wall-clock seconds); "relN" = relevance closure of depth N (sound weakening)
-
+# first pass: everything in parallel, short budgets.  "x@api" = the same query through z3's Python API in a child process
+SCHEDULE = (("defs", 0, 2), ("rel2", 0, 3), ("all", 0, 4), ("all@api", 0, 4), ("rel2@api", 1, 3), ("all@api!nombqi", 1, 3), ("rel2", 2, 3),
+            ("rel20", 0, 3), ("all0", 0, 4), ("defs0", 0, 2), ("all", 3, 3), ("rel2@api!nombqi", 4, 3), ("all@api", 5, 3), ("rel1", 7, 3), ("all!nombqi", 6, 3), ("rel3@api", 8, 3))
+# many short attempts: for the quantified queries generated here a proof, when the instantiation order is favourable, is found
+# within a second or two; an unfavourable order is not helped by waiting, but by another seed / hypothesis selection / front end
 
 # second pass: only what is still undecided (at most FAIL_CAP obligations per clause), few at a time, long budgets
-RETRY_SCHEDULE = (("all", 0, 20), ("defs", 7, 10), ("rel3", 7, 8), ("all", 42, 15), ("rel2", 99, 12), ("rel1", 3, 20), ("all", 3, 45))
+RETRY_SCHEDULE = (("all@api", 10, 20), ("all", 11, 15), ("all0", 3, 15), ("rel20", 2, 10), ("all0@api", 1, 15), ("defs", 7, 8), ("rel3@api!nombqi", 12, 8), ("rel2@api", 13, 10), ("all!nombqi", 42, 10),
+                  ("rel1@api", 14, 10), ("all@api", 15, 30))
 FALSE_GOAL_SCHEDULE = (("all", 0, 4),)      # `pc => False` (an exceptional edge that must be unreachable): quick, a refutation needs a model anyway
 
 
@@ -160,25 +291,34 @@ def _run(args):
         paths[k] = pth
     last, info = "unknown", ""
     try:
-        for sel, seed, secs in sched:
+        for sel0, seed, secs in sched:
+            sel0, _, opt = sel0.partition("!")
+            sel, _, how = sel0.partition("@")
             if sel not in paths:
                 continue
             path = paths[sel]
-            cmd = [Z3_CLI, f"-T:{secs}", f"smt.random_seed={seed}", f"sat.random_seed={seed}", path]
+            if how == "api":
+                cmd = [sys.executable, "-m", "pyvc.z3worker", path, str(secs * 1000), str(seed), opt]
+            else:
+                cmd = [Z3_CLI, f"-T:{secs}", f"smt.random_seed={seed}", f"sat.random_seed={seed}"] + (["smt.mbqi=false"] if opt == "nombqi" else []) + [path]
             try:
-                out = subprocess.run(cmd, capture_output=True, text=True, timeout=secs + 5).stdout
+                out = subprocess.run(cmd, capture_output=True, text=True, timeout=secs + 5,
+                                     cwd=os.path.dirname(os.path.dirname(os.path.abspath(__file__)))).stdout
             except subprocess.TimeoutExpired:
                 out = "timeout"
             first = out.strip().splitlines()[0].strip() if out.strip() else "unknown"
             if first == "unsat":
-                return idx, "unsat", "", (time.time() - t0) * 1000, "z3-5.1" + (f"(seed {seed})" if seed else "") + ("" if sel == "all" else f"[{sel}]")
-            if first == "sat" and sel != "all":
+                return idx, "unsat", "", (time.time() - t0) * 1000, "z3-5.1" + ("-api" if how == "api" else "") + (f"(seed {seed})" if seed else "") + ("" if sel == "all" else f"[{sel}]")
+            if first == "sat" and sel not in ("all", "all0"):
                 continue                  # a model of a weakened query proves nothing
             if first == "sat":
-                try:
-                    m = subprocess.run([Z3_CLI, f"-T:{secs}", "-model", path], capture_output=True, text=True, timeout=secs + 5).stdout
-                except subprocess.TimeoutExpired:
-                    m = ""
+                if how == "api":
+                    m = out
+                else:
+                    try:
+                        m = subprocess.run([Z3_CLI, f"-T:{secs}", "-model", path], capture_output=True, text=True, timeout=secs + 5).stdout
+                    except subprocess.TimeoutExpired:
+                        m = ""
                 return idx, "sat", m[:6000], (time.time() - t0) * 1000, "z3-5.1"
             last, info = "unknown", first
     finally:
@@ -243,6 +383,13 @@ def prepare(ob):
     if "PICKLE" in smt or "VERIFIED_" in smt or "SHA256HEX" in smt:
         from . import oslib
         extra += oslib.axioms()
+    extra0 = list(extra)
+    if not ob.kind.startswith("canary") and ob.kind != "lemma" and any(z3.is_quantifier(h) or z3.is_and(h) for h in ob.hyps):
+        try:
+            ob.goal_sk, _ = skolemize(ob.goal)
+            extra = extra + pre_instantiate(ob.hyps, ob.goal_sk)
+        except z3.Z3Exception:
+            ob.goal_sk = None
     if extra:
         smt = to_smt2(ob, extra)
     smts = {"all": smt}
@@ -250,6 +397,11 @@ def prepare(ob):
         for d in (1, 2, 3):
             smts[f"rel{d}"] = to_smt2(ob, extra, hyps=relevant_hyps(ob, d))
         smts["defs"] = to_smt2(ob, extra, hyps=definition_hyps(ob))
+        if getattr(ob, "goal_sk", None) is not None:
+            # the same queries without forall-introduction and explicit instances: the solver's own E-matching order
+            smts["all0"] = to_smt2(ob, extra0, plain=True)
+            smts["rel20"] = to_smt2(ob, extra0, hyps=relevant_hyps(ob, 2), plain=True)
+            smts["defs0"] = to_smt2(ob, extra0, hyps=definition_hyps(ob), plain=True)
     return Rec(ob, smts)
 
 
